@@ -22,6 +22,14 @@ pub struct Scenario {
     pub edits: Vec<Edit>,
     /// Options of the operation under test.
     pub opts: Opts,
+    /// After the prefix, renumber the existing versions b_i -> b_(i*spread): gaps as left
+    /// by many deleted versions (1 = leave them alone).
+    #[serde(default = "one")]
+    pub id_spread: u32,
+}
+
+fn one() -> u32 {
+    1
 }
 
 pub fn small_cfg() -> TreeCfg {
@@ -57,8 +65,9 @@ pub fn scenario_strategy(interrupts_in_prefix: bool, deletes_in_prefix: bool) ->
         prop::collection::vec(op_strategy(cfg), 0..=2),
         prop::collection::vec(edit_strategy(small_cfg()), 0..6),
         small_opts(),
+        prop_oneof![8 => Just(1u32), 1 => Just(20u32), 1 => Just(3400u32)],
     )
-        .prop_map(|(g, first, mut prefix, edits, opts)| {
+        .prop_map(|(g, first, mut prefix, edits, opts, id_spread)| {
             if let Some(o) = first {
                 prefix.insert(0, Op::Backup(o));
             }
@@ -67,9 +76,14 @@ pub fn scenario_strategy(interrupts_in_prefix: bool, deletes_in_prefix: bool) ->
                 prefix,
                 edits,
                 opts,
+                id_spread,
             }
         })
         .boxed()
+}
+
+fn format_scan_ids(arch: &Path) -> Vec<u32> {
+    crate::format::scan(arch).bands.keys().copied().collect()
 }
 
 pub fn copy_dir(from: &Path, to: &Path) {
@@ -99,6 +113,20 @@ impl Base {
         let mut world = World::new(scratch, &sc.initial);
         for op in &sc.prefix {
             let _ = world.apply(op);
+        }
+        if sc.id_spread > 1 {
+            let ids: Vec<u32> = format_scan_ids(&world.arch);
+            for id in ids.iter().rev() {
+                if *id > 0 {
+                    std::fs::rename(
+                        world.arch.join(crate::format::band_dirname(*id)),
+                        world.arch.join(crate::format::band_dirname(id * sc.id_spread)),
+                    )
+                    .unwrap();
+                }
+            }
+            world.bands = std::mem::take(&mut world.bands).into_iter().map(|(k, v)| (k * sc.id_spread, v)).collect();
+            world.max_id_seen = world.max_id_seen.map(|m| m * sc.id_spread);
         }
         let old = world.tree.clone();
         for e in &sc.edits {
